@@ -101,6 +101,7 @@ func main() {
 	maxReport := fs.Int("max-report", 3, "minimise and report at most this many distinct violation signatures")
 	minCand := fs.Int("min-candidates", 300, "candidate runs the minimiser may spend per violation")
 	noEvidence := fs.Bool("no-evidence", false, "do not write the evidence file (used when testing seeded defects)")
+	fs.BoolVar(&stopAtFirst, "stop-at-first", false, "start no further run once one run has shown a violation (sweeps over seeded defects)")
 	fs.Parse(os.Args[2:])
 	maxReported, maxCandidates = *maxReport, *minCand
 	if *tier != "quick" && *tier != "thorough" {
@@ -460,6 +461,9 @@ func check(b *build, prop, tier string, seed uint64, cfg tierCfg, par int, write
 	firstPass := map[int]probe{}
 	b.runMany(runDir, cfg.runs, par, gen, deadline, func(r runOut) {
 		a.add(b, r)
+		if stopAtFirst && r.res != nil && len(r.res.Violations) > 0 {
+			stopNow = true
+		}
 		if r.idx%50 == 7 && r.res != nil {
 			firstPass[r.idx] = probe{r.res.EventHash, r.res.OutcomeHash}
 		}
